@@ -93,7 +93,22 @@ Record inv (b : bst) (vis : list nat) (cur : option (nat * nat)) : Prop := {
   i_an : forall t n, In (t, n) (an b) -> n < length (nodes b);
   i_pn_node : forall pi n, In (pi, n) (pn b) -> nth_error (nodes b) n = Some (NProv pi);
   i_an_node : forall t n, In (t, n) (an b) -> nth_error (nodes b) n = Some (NArg t);
-  i_sx : forall c i m sx pi, nth_error (red b c) i = Some (m, sx) -> nth_error (nodes b) m = Some (NProv pi) -> sx < nprovides pi }.
+  i_sx : forall c i m sx pi, nth_error (red b c) i = Some (m, sx) -> nth_error (nodes b) m = Some (NProv pi) -> sx < nprovides pi;
+  (* argument nodes are exactly the entries of the argument map, one per type *)
+  i_arg_an : forall n t, nth_error (nodes b) n = Some (NArg t) -> In (t, n) (an b);
+  i_an_nodup : NoDup (map fst (an b));
+  i_an_pm : forall t n, In (t, n) (an b) -> pm t = None;
+  (* every resolved parameter was resolved by type: through the provider map, or as an injector argument of that type *)
+  i_res : forall c i m sx pc, nth_error (red b c) i = Some (m, sx) -> nth_error (nodes b) c = Some (NProv pc) ->
+            exists t, nth_error (requires pc) i = Some t /\
+              match pm t with
+              | Some (pi, gi) => sx = gi /\ nth_error (nodes b) m = Some (NProv pi)
+              | None => sx = 0 /\ nth_error (nodes b) m = Some (NArg t)
+              end;
+  (* provider nodes other than the root are exactly the entries of the provider-node map, one per provider *)
+  i_prov_pn : forall n pi, n <> 0 -> nth_error (nodes b) n = Some (NProv pi) -> In (pi, n) (pn b);
+  i_pn_nodup : NoDup (map fst (pn b));
+  i_nonempty : 0 < length (nodes b) }.
 
 Lemma nreq_of_app b b' n extra : nodes b' = nodes b ++ extra -> n < length (nodes b) -> nreq_of b' n = nreq_of b n.
 Proof. intros E H. unfold nreq_of. rewrite E. rewrite nth_error_app1 by auto. auto. Qed.
@@ -103,10 +118,12 @@ Lemma new_node_inv b vis cur k (pnx : list (nat*nat)) (anx : list (N*nat)) :
   (forall pi n, In (pi, n) pnx -> n <= length (nodes b)) -> (forall t n, In (t, n) anx -> n <= length (nodes b)) ->
   (forall pi n, In (pi, n) pnx -> nth_error (nodes b ++ [k]) n = Some (NProv pi)) ->
   (forall t n, In (t, n) anx -> nth_error (nodes b ++ [k]) n = Some (NArg t)) ->
+  (forall n t, nth_error (nodes b ++ [k]) n = Some (NArg t) -> In (t, n) anx) -> NoDup (map fst anx) -> (forall t n, In (t, n) anx -> pm t = None) ->
+  (forall n pi, n <> 0 -> nth_error (nodes b ++ [k]) n = Some (NProv pi) -> In (pi, n) pnx) -> NoDup (map fst pnx) ->
   inv b vis cur ->
   inv {| nodes := nodes b ++ [k]; red := red b; out := out b; pn := pnx; an := anx; queue := queue b ++ [length (nodes b)] |} vis cur.
 Proof.
-  intros Hpn Han Hpnn Hann I. set (n2 := length (nodes b)).
+  intros Hpn Han Hpnn Hann Harg Hand Hapm Hprov Hpnd I. set (n2 := length (nodes b)).
   assert (Hlt : forall n, (In n (queue b) \/ In n vis \/ exists j, cur = Some (n, j)) -> n < length (nodes b))
     by (intros n H; apply (i_part _ _ _ I); exact H).
   assert (Hfresh : ~ In n2 (queue b) /\ ~ In n2 vis /\ (forall j, cur <> Some (n2, j))).
@@ -141,6 +158,17 @@ Proof.
   - exact Hann.
   - intros c i m sx pi H Hm. destruct (i_red_edge _ _ _ I c i m sx H) as (Hm2 & _).
     rewrite nth_error_app1 in Hm by auto. eapply (i_sx _ _ _ I); eauto.
+  - exact Harg.
+  - exact Hand.
+  - exact Hapm.
+  - intros c i m sx pc H Hc. destruct (i_red_edge _ _ _ I c i m sx H) as (Hm2 & _).
+    assert (Hcl : c < length (nodes b)).
+    { destruct (lt_dec c (length (nodes b))); auto. exfalso. destruct (i_beyond _ _ _ I c) as (R & _); [lia|]. rewrite R in H. destruct i; discriminate. }
+    rewrite nth_error_app1 in Hc by auto. destruct (i_res _ _ _ I c i m sx pc H Hc) as (t & Ht & Hm).
+    exists t. split; auto. destruct (pm t) as [[pi gi]|]; destruct Hm as (A & B); split; auto; rewrite nth_error_app1; auto.
+  - exact Hprov.
+  - exact Hpnd.
+  - rewrite app_length. simpl. lia.
 Qed.
 
 Lemma assocn_In {A} k (l : list (nat * A)) v : assocn k l = Some v -> In (k, v) l.
@@ -164,6 +192,18 @@ Proof.
            ++ rewrite nth_error_app1 by (apply (i_pn _ _ _ I p n H)). apply (i_pn_node _ _ _ I); auto.
            ++ inversion H; subst. rewrite nth_error_app2 by lia. rewrite Nat.sub_diag. reflexivity.
         -- intros t0 n H. rewrite nth_error_app1 by (apply (i_an _ _ _ I t0 n H)). apply (i_an_node _ _ _ I); auto.
+        -- intros n t0 H. destruct (lt_dec n (length (nodes b))) as [Hl|Hl]; [rewrite nth_error_app1 in H by auto; apply (i_arg_an _ _ _ I); auto|].
+           assert (Hn : n = length (nodes b)) by (apply nth_error_Some_lt in H; rewrite app_length in H; simpl in H; lia).
+           subst n. rewrite nth_error_app2 in H by lia. rewrite Nat.sub_diag in H. discriminate.
+        -- apply (i_an_nodup _ _ _ I).
+        -- apply (i_an_pm _ _ _ I).
+        -- intros n p Hn0 H. destruct (lt_dec n (length (nodes b))) as [Hl|Hl]; [rewrite nth_error_app1 in H by auto; apply in_or_app; left; apply (i_prov_pn _ _ _ I); auto|].
+           assert (Hn : n = length (nodes b)) by (apply nth_error_Some_lt in H; rewrite app_length in H; simpl in H; lia).
+           subst n. rewrite nth_error_app2 in H by lia. rewrite Nat.sub_diag in H. inversion H; subst. apply in_or_app. right. left. reflexivity.
+        -- rewrite map_app. simpl. assert (Hnin : ~ In pi (map fst (pn b))).
+           { clear - A. induction (pn b) as [|[k v] r IHr]; simpl in *; [tauto|]. destruct (Nat.eqb_spec pi k) as [->|Hne]; [discriminate|]. intros [E|E]; [congruence|apply IHr; auto]. }
+           pose proof (i_pn_nodup _ _ _ I) as ND. clear - ND Hnin. induction (map fst (pn b)) as [|x l IHl]; simpl; [constructor; auto; constructor|].
+           inversion ND; subst. constructor; [intro H; apply in_app_or in H; destruct H as [H|[H|[]]]; [auto | subst; apply Hnin; left; auto] | apply IHl; auto; intro; apply Hnin; right; auto].
       * rewrite app_length. simpl. lia.
       * intros n Hn. rewrite nth_error_app1; auto.
       * rewrite app_length. lia.
@@ -180,10 +220,34 @@ Proof.
         -- intros t0 n H. apply in_app_or in H. destruct H as [H|[H|[]]].
            ++ rewrite nth_error_app1 by (apply (i_an _ _ _ I t0 n H)). apply (i_an_node _ _ _ I); auto.
            ++ inversion H; subst. rewrite nth_error_app2 by lia. rewrite Nat.sub_diag. reflexivity.
+        -- intros n t0 H. destruct (lt_dec n (length (nodes b))) as [Hl|Hl]; [rewrite nth_error_app1 in H by auto; apply in_or_app; left; apply (i_arg_an _ _ _ I); auto|].
+           assert (Hn : n = length (nodes b)) by (apply nth_error_Some_lt in H; rewrite app_length in H; simpl in H; lia).
+           subst n. rewrite nth_error_app2 in H by lia. rewrite Nat.sub_diag in H. inversion H; subst. apply in_or_app. right. left. reflexivity.
+        -- rewrite map_app. simpl. assert (Hnin : ~ In t (map fst (an b))).
+           { clear - A. induction (an b) as [|[k v] r IHr]; simpl in *; [tauto|]. destruct (N.eqb_spec t k) as [->|Hne]; [discriminate|]. intros [E|E]; [congruence|apply IHr; auto]. }
+           pose proof (i_an_nodup _ _ _ I) as ND. clear - ND Hnin. induction (map fst (an b)) as [|x l IHl]; simpl; [constructor; auto; constructor|].
+           inversion ND; subst. constructor; [intro H; apply in_app_or in H; destruct H as [H|[H|[]]]; [auto | subst; apply Hnin; left; auto] | apply IHl; auto; intro; apply Hnin; right; auto].
+        -- intros t0 n H. apply in_app_or in H. destruct H as [H|[H|[]]]; [apply (i_an_pm _ _ _ I t0 n H) | inversion H; subst; exact Pm].
+        -- intros n p Hn0 H. destruct (lt_dec n (length (nodes b))) as [Hl|Hl]; [rewrite nth_error_app1 in H by auto; apply (i_prov_pn _ _ _ I); auto|].
+           assert (Hn : n = length (nodes b)) by (apply nth_error_Some_lt in H; rewrite app_length in H; simpl in H; lia).
+           subst n. rewrite nth_error_app2 in H by lia. rewrite Nat.sub_diag in H. discriminate.
+        -- apply (i_pn_nodup _ _ _ I).
       * rewrite app_length. simpl. lia.
       * intros n Hn. rewrite nth_error_app1; auto.
       * rewrite app_length. lia.
       * intros pi' H. rewrite nth_error_app2 in H by lia. rewrite Nat.sub_diag in H. discriminate.
+Qed.
+
+Lemma resolve_res b vis cur t b' n2 sx : inv b vis cur -> resolve b t = (b', n2, sx) ->
+  match pm t with Some (pi, gi) => sx = gi /\ nth_error (nodes b') n2 = Some (NProv pi) | None => sx = 0 /\ nth_error (nodes b') n2 = Some (NArg t) end.
+Proof.
+  intros I R. unfold resolve in R. destruct (pm t) as [[pi gi]|] eqn:Pm.
+  - destruct (assocn pi (pn b)) as [m|] eqn:A.
+    + inversion R; subst. apply assocn_In in A. split; auto. apply (i_pn_node _ _ _ I); auto.
+    + inversion R; subst. cbn [nodes]. split; auto. rewrite nth_error_app2 by lia. rewrite Nat.sub_diag. reflexivity.
+  - destruct (assocN t (an b)) as [m|] eqn:A.
+    + inversion R; subst. apply assocN_In in A. split; auto. apply (i_an_node _ _ _ I); auto.
+    + inversion R; subst. cbn [nodes]. split; auto. rewrite nth_error_app2 by lia. rewrite Nat.sub_diag. reflexivity.
 Qed.
 
 Lemma nreq_add_edge b n2 sx n1 i n : nreq_of (add_edge b n2 sx n1 i) n = nreq_of b n.
@@ -191,9 +255,11 @@ Proof. reflexivity. Qed.
 
 Lemma add_edge_inv b vis n1 k n2 sx : inv b vis (Some (n1, k)) -> n2 < length (nodes b) -> k < nreq_of b n1 ->
   (forall pi, nth_error (nodes b) n2 = Some (NProv pi) -> sx < nprovides pi) ->
+  (forall pc, nth_error (nodes b) n1 = Some (NProv pc) -> exists t, nth_error (requires pc) k = Some t /\
+       match pm t with Some (pi, gi) => sx = gi /\ nth_error (nodes b) n2 = Some (NProv pi) | None => sx = 0 /\ nth_error (nodes b) n2 = Some (NArg t) end) ->
   inv (add_edge b n2 sx n1 k) vis (Some (n1, S k)).
 Proof.
-  intros I H2 Hk Hsx. destruct (i_red_cur _ _ _ I n1 k eq_refl) as (Lk & _ & Hnv).
+  intros I H2 Hk Hsx Hres. destruct (i_red_cur _ _ _ I n1 k eq_refl) as (Lk & _ & Hnv).
   assert (Hn1 : n1 < length (nodes b)) by (apply (i_part _ _ _ I); right; right; eauto).
   constructor; unfold add_edge; cbn [nodes red out pn an queue].
   - intros n. rewrite (i_part _ _ _ I n). split; intros [H|[H|(j & H)]]; auto; right; right; injection H as E1 E2; rewrite E1; eauto.
@@ -237,21 +303,40 @@ Proof.
       * rewrite nth_error_app2 in H by lia. replace (i - length (red b n1)) with (i - k) in H by lia.
         destruct (i - k) as [|d] eqn:D; simpl in H; [|destruct d; discriminate]. inversion H; subst. apply Hsx; auto.
     + rewrite fupd_neq in H by auto. eapply (i_sx _ _ _ I); eauto.
+  - apply (i_arg_an _ _ _ I).
+  - apply (i_an_nodup _ _ _ I).
+  - apply (i_an_pm _ _ _ I).
+  - intros c i m sx' pc H Hc. destruct (Nat.eq_dec c n1) as [->|Hcn].
+    + rewrite fupd_eq in H. destruct (lt_dec i k) as [Hi|Hi].
+      * rewrite nth_error_app1 in H by lia. eapply (i_res _ _ _ I); eauto.
+      * rewrite nth_error_app2 in H by lia. replace (i - length (red b n1)) with (i - k) in H by lia.
+        destruct (i - k) as [|d] eqn:D; simpl in H; [|destruct d; discriminate]. inversion H; subst m sx'.
+        assert (i = k) by lia. subst i. apply Hres. exact Hc.
+    + rewrite fupd_neq in H by auto. eapply (i_res _ _ _ I); eauto.
+  - apply (i_prov_pn _ _ _ I).
+  - apply (i_pn_nodup _ _ _ I).
+  - apply (i_nonempty _ _ _ I).
 Qed.
 
 Lemma do_reqs_inv : forall ts b vis n1 k, inv b vis (Some (n1, k)) -> k + length ts = nreq_of b n1 ->
+  (forall pc, nth_error (nodes b) n1 = Some (NProv pc) -> ts = skipn k (requires pc)) ->
   let b' := do_reqs b n1 k ts in
   inv b' vis (Some (n1, nreq_of b n1)) /\ length (nodes b) <= length (nodes b') /\
   (forall n, n < length (nodes b) -> nth_error (nodes b') n = nth_error (nodes b) n).
 Proof.
-  induction ts as [|t r IH]; intros b vis n1 k I Hk; simpl.
+  induction ts as [|t r IH]; intros b vis n1 k I Hk Hts; simpl.
   - rewrite Nat.add_0_r in Hk. subst. auto.
   - simpl in Hk. destruct (resolve b t) as [[b1 n2] sx] eqn:R.
     destruct (resolve_inv _ _ _ _ _ _ _ I R) as (I1 & H2 & Hsame & Hlen & Hsx).
+    pose proof (resolve_res _ _ _ _ _ _ _ I R) as Hrr.
     assert (Hn1 : n1 < length (nodes b)) by (apply (i_part _ _ _ I); right; right; eauto).
     assert (Hq : nreq_of b1 n1 = nreq_of b n1) by (unfold nreq_of; rewrite Hsame; auto).
-    assert (I2 : inv (add_edge b1 n2 sx n1 k) vis (Some (n1, S k))) by (apply add_edge_inv; auto; lia).
-    destruct (IH _ _ _ _ I2) as (I3 & L3 & S3); [rewrite nreq_add_edge, Hq; lia|].
+    assert (Hskip : forall (A : Type) (l : list A) k x r0, skipn k l = x :: r0 -> nth_error l k = Some x /\ skipn (S k) l = r0).
+    { intros A l. induction l as [|a l' IHl]; intros k0 x r0 E; [destruct k0; discriminate|]. destruct k0; simpl in *; [inversion E; auto | apply IHl; auto]. }
+    assert (I2 : inv (add_edge b1 n2 sx n1 k) vis (Some (n1, S k))).
+    { apply add_edge_inv; auto; [lia|]. intros pc Hpc. rewrite Hsame in Hpc by auto. specialize (Hts pc Hpc). symmetry in Hts. apply Hskip in Hts. exists t. split; [apply Hts|exact Hrr]. }
+    destruct (IH _ _ _ _ I2) as (I3 & L3 & S3); [rewrite nreq_add_edge, Hq; lia| |].
+    { intros pc Hpc. cbn [add_edge nodes] in Hpc. rewrite Hsame in Hpc by auto. specialize (Hts pc Hpc). symmetry in Hts. apply Hskip in Hts. symmetry. apply Hts. }
     rewrite nreq_add_edge, Hq in I3. split; auto. split; [simpl in L3; lia|].
     intros n Hn. rewrite S3 by (simpl; lia). simpl. auto.
 Qed.
@@ -286,6 +371,13 @@ Proof.
   - apply (i_pn_node _ _ _ I).
   - apply (i_an_node _ _ _ I).
   - apply (i_sx _ _ _ I).
+  - apply (i_arg_an _ _ _ I).
+  - apply (i_an_nodup _ _ _ I).
+  - apply (i_an_pm _ _ _ I).
+  - apply (i_res _ _ _ I).
+  - apply (i_prov_pn _ _ _ I).
+  - apply (i_pn_nodup _ _ _ I).
+  - apply (i_nonempty _ _ _ I).
 Qed.
 
 (* finishing a node: all of its parameters have been resolved *)
@@ -311,6 +403,13 @@ Proof.
   - apply (i_pn_node _ _ _ I).
   - apply (i_an_node _ _ _ I).
   - apply (i_sx _ _ _ I).
+  - apply (i_arg_an _ _ _ I).
+  - apply (i_an_nodup _ _ _ I).
+  - apply (i_an_pm _ _ _ I).
+  - apply (i_res _ _ _ I).
+  - apply (i_prov_pn _ _ _ I).
+  - apply (i_pn_nodup _ _ _ I).
+  - apply (i_nonempty _ _ _ I).
 Qed.
 
 Lemma loop_inv : forall fuel b vis b' vis', inv b vis None -> loop fuel b vis = Some (b', vis') ->
@@ -327,7 +426,9 @@ Proof.
       eapply IH; [|exact H]. apply finish_inv. unfold nreq_of, setq. cbn [nodes]. rewrite E. exact I0.
     + pose proof (do_reqs_inv (requires pi) (setq b q) vis n1 0 I0) as D. simpl in D.
       assert (Hlen : length (requires pi) = nreq_of (setq b q) n1) by (unfold nreq_of, setq; cbn [nodes]; rewrite E; auto).
-      destruct (D Hlen) as (I1 & L1 & S1). eapply IH; [|exact H]. apply finish_inv.
+      assert (Hts0 : forall pc, nth_error (nodes (setq b q)) n1 = Some (NProv pc) -> requires pi = skipn 0 (requires pc)).
+      { intros pc Hpc. unfold setq in Hpc. cbn [nodes] in Hpc. rewrite E in Hpc. inversion Hpc; subst. reflexivity. }
+      destruct (D Hlen Hts0) as (I1 & L1 & S1). eapply IH; [|exact H]. apply finish_inv.
       assert (nreq_of (do_reqs (setq b q) n1 0 (requires pi)) n1 = nreq_of (setq b q) n1).
       { unfold nreq_of. rewrite S1; auto. }
       rewrite H0. exact I1.
@@ -371,6 +472,41 @@ Proof.
 Qed.
 Theorem arg_noreq : forall n t, nth_error (nodes b) n = Some (NArg t) -> nreq n = 0.
 Proof. intros n t H. unfold nreq. rewrite (i_arg _ _ _ I n t H). reflexivity. Qed.
+(* every parameter was resolved by its type: through the provider map (which provider, which result), or - when no
+   provider supplies the type - as THE argument node of that type *)
+Theorem res_by_type : forall c pc i, nth_error (nodes b) c = Some (NProv pc) -> i < nreq c ->
+  exists t, nth_error (requires pc) i = Some t /\
+    match pm t with
+    | Some (pi, gi) => sidx c i = gi /\ nth_error (nodes b) (src c i) = Some (NProv pi)
+    | None => sidx c i = 0 /\ nth_error (nodes b) (src c i) = Some (NArg t)
+    end.
+Proof.
+  intros c pc i Hc Hi. unfold nreq in Hi. destruct (nth_error (red b c) i) as [[m sx]|] eqn:E; [|apply nth_error_None in E; lia].
+  destruct (i_res _ _ _ I c i m sx pc E Hc) as (t & Ht & Hm). exists t. split; auto.
+  unfold sidx, src. rewrite (nth_error_nth _ _ _ E). simpl. exact Hm.
+Qed.
+Theorem arg_unique : forall n n' t, nth_error (nodes b) n = Some (NArg t) -> nth_error (nodes b) n' = Some (NArg t) -> n = n'.
+Proof.
+  intros n n' t H H'. apply (i_arg_an _ _ _ I) in H. apply (i_arg_an _ _ _ I) in H'.
+  pose proof (i_an_nodup _ _ _ I) as ND. clear - H H' ND. induction (an b) as [|[k v] r IH]; [destruct H|]. simpl in ND. inversion ND; subst.
+  destruct H as [H|H]; destruct H' as [H'|H'].
+  - congruence.
+  - inversion H; subst. exfalso. apply H2. apply (in_map fst) in H'. exact H'.
+  - inversion H'; subst. exfalso. apply H2. apply (in_map fst) in H. exact H.
+  - auto.
+Qed.
+Theorem prov_unique : forall n n' pi, n <> 0 -> n' <> 0 -> nth_error (nodes b) n = Some (NProv pi) -> nth_error (nodes b) n' = Some (NProv pi) -> n = n'.
+Proof.
+  intros n n' pi N N' H H'. apply (i_prov_pn _ _ _ I) in H; auto. apply (i_prov_pn _ _ _ I) in H'; auto.
+  pose proof (i_pn_nodup _ _ _ I) as ND. clear - H H' ND. induction (pn b) as [|[k v] r IH]; [destruct H|]. simpl in ND. inversion ND; subst.
+  destruct H as [H|H]; destruct H' as [H'|H'].
+  - congruence.
+  - inversion H; subst. exfalso. apply H2. apply (in_map fst) in H'. exact H'.
+  - inversion H'; subst. exfalso. apply H2. apply (in_map fst) in H. exact H.
+  - auto.
+Qed.
+Theorem arg_unsupplied : forall n t, nth_error (nodes b) n = Some (NArg t) -> pm t = None.
+Proof. intros n t H. apply (i_arg_an _ _ _ I) in H. eapply (i_an_pm _ _ _ I); eauto. Qed.
 End Final.
 End BFS.
 
